@@ -561,6 +561,17 @@ pub fn extra_definitions() -> Vec<Ty> {
         Ty::Struct(vec![u.clone(), Ty::Array(Box::new(Ty::Scalar(Sc::Long)), 2)]),
     ];
     let mut out = Vec::new();
+    // a struct whose first member can match nothing (a tagged struct / union), followed by a member that starts with an
+    // identifier (an enum) - the IF_DATA content then begins with a word that is not a tag
+    {
+        let ts = Ty::TaggedStruct(vec![Tagged { tag: "A1".into(), item: Some(u.clone()), block: false, repeat: false }]);
+        let tu = Ty::TaggedUnion(vec![Tagged { tag: "A1".into(), item: Some(u.clone()), block: false, repeat: false }, Tagged { tag: "B1".into(), item: None, block: false, repeat: false }]);
+        out.push(Ty::Struct(vec![ts.clone(), e.clone()]));
+        out.push(Ty::Struct(vec![tu.clone(), e.clone()]));
+        out.push(Ty::Struct(vec![Ty::Struct(vec![ts.clone()]), e.clone(), u.clone()]));
+        out.push(Ty::Struct(vec![ts.clone(), Ty::Struct(vec![e.clone(), u.clone()])]));
+        out.push(Ty::Seq(Box::new(Ty::Struct(vec![e.clone(), ts.clone()]))));
+    }
     for x in elems {
         out.push(Ty::Struct(vec![x.clone()]));
         out.push(Ty::Struct(vec![u.clone(), x.clone(), u.clone()]));
